@@ -82,8 +82,33 @@ func (r *runner) guard(op string, f func() string) string {
 		}()
 		out = f()
 	}()
+	out = printable(out)
 	r.c.Op(op, out)
 	return out
+}
+
+// printable keeps an output line a line: a name that lindb hands back with bytes that are no printable
+// ASCII (never on the unchanged tree: the harness's names are letters and digits) is shown escaped.
+func printable(s string) string {
+	clean := true
+	for i := 0; i < len(s); i++ {
+		if s[i] < 0x20 || s[i] > 0x7e {
+			clean = false
+			break
+		}
+	}
+	if clean {
+		return s
+	}
+	var sb strings.Builder
+	for i := 0; i < len(s); i++ {
+		if s[i] < 0x20 || s[i] > 0x7e {
+			fmt.Fprintf(&sb, "\\x%02x", s[i])
+		} else {
+			sb.WriteByte(s[i])
+		}
+	}
+	return sb.String()
 }
 
 func addUnique(xs []int, v int) []int {
@@ -505,52 +530,61 @@ func (area) Run(c *core.Ctx) error {
 		c.Begin(i)
 		db := fmt.Sprintf("c09-%d-%d", c.Seed, i)
 		var err error
-		switch i {
-		case 0:
-			err = witnessKVRace(c, db)
-		case 1:
-			err = witnessSchemaRace(c, db, "tagkey")
-		case 2:
-			err = witnessSchemaRace(c, db, "field")
-		case 3:
-			err = witnessUnsyncedCounter(c, db)
-		case 4:
-			err = witnessSeriesLimit(c, db)
-		case 5:
-			err = witnessSchemaFlushWindow(c, db)
-		case 6:
-			err = witnessLookupVsFlush(c, db)
-		case 7:
-			err = witnessFailedFlush(c, db)
-		case 8:
-			err = witnessSchemaCacheRace(c, db)
-		case 9, 10, 11, 12:
-			err = witnessIndexCommitCrash(c, db, i-9)
-		case 13:
-			err = witnessBucketCacheRace(c, db)
-		case 14:
-			err = witnessSchemaFlushFails(c, db)
-		case 15:
-			err = witnessCompaction(c, db)
-		case 16:
-			err = witnessMemdbRace(c, db)
-		case 17:
-			err = memdbBarrierRegion(c, db)
-		case 18:
-			err = witnessBigBucket(c, db)
-		case 19:
-			err = memdbWorkerRegion(c, db)
-		case 20:
-			err = bufReuseRegion(c, rng, db, true)
-		case 21:
-			err = bufReuseRegion(c, rng, db, false)
-		default:
-			if rng.Intn(12) == 0 {
+		func() {
+			// a panic on this goroutine outside a guarded call (e.g. while the harness digests what lindb
+			// handed back) ends the case, not the run
+			defer func() {
+				if e := recover(); e != nil {
+					err = fmt.Errorf("panic outside a guarded call: %v", e)
+				}
+			}()
+			switch i {
+			case 0:
+				err = witnessKVRace(c, db)
+			case 1:
+				err = witnessSchemaRace(c, db, "tagkey")
+			case 2:
+				err = witnessSchemaRace(c, db, "field")
+			case 3:
+				err = witnessUnsyncedCounter(c, db)
+			case 4:
+				err = witnessSeriesLimit(c, db)
+			case 5:
+				err = witnessSchemaFlushWindow(c, db)
+			case 6:
+				err = witnessLookupVsFlush(c, db)
+			case 7:
+				err = witnessFailedFlush(c, db)
+			case 8:
+				err = witnessSchemaCacheRace(c, db)
+			case 9, 10, 11, 12:
+				err = witnessIndexCommitCrash(c, db, i-9)
+			case 13:
+				err = witnessBucketCacheRace(c, db)
+			case 14:
+				err = witnessSchemaFlushFails(c, db)
+			case 15:
+				err = witnessCompaction(c, db)
+			case 16:
+				err = witnessMemdbRace(c, db)
+			case 17:
+				err = memdbBarrierRegion(c, db)
+			case 18:
+				err = witnessBigBucket(c, db)
+			case 19:
+				err = memdbWorkerRegion(c, db)
+			case 20:
+				err = bufReuseRegion(c, rng, db, true)
+			case 21:
 				err = bufReuseRegion(c, rng, db, false)
-			} else {
-				err = randomCase(c, rng, db)
+			default:
+				if rng.Intn(12) == 0 {
+					err = bufReuseRegion(c, rng, db, false)
+				} else {
+					err = randomCase(c, rng, db)
+				}
 			}
-		}
+		}()
 		if err != nil {
 			var he harnessError
 			if errors.As(err, &he) {
